@@ -126,7 +126,7 @@ def main():
             # (an experiment switch to measure how faithfully that oracle reproduces networkx; never set by ./check)
             res = None if obs['verdict'] == 'steplimit' else \
                 model.run(spec, obs['actions'], () if os.environ.get('VERIF_NO_ORDERS') else obs['orders'], obs['descendants'],
-                          hyps=(1 if (s == 0 and frag == 'Plain' and len(spec['nodes']) <= 12) else 0))
+                          hyps=(1 if (s == 0 and frag == 'Plain' and len(spec['nodes']) <= 12) else 0), obs=obs)
             d = []
             if obs['verdict'] == 'steplimit':
                 # a livelock of the real engine (seen only on shapes of known findings: unbounded re-iteration of a recurrent subgraph with a
